@@ -26,6 +26,9 @@ THEOREMS = {
         "bfsTree_dist_eq",
         "normalize_iso",
         "segment_roundtrip",
+        "handle_noninterference",
+        "handle_view_eq",
+        "handle_child_eq",
         "tsbfs_leaves_eq",
         "tsdfs_leaves_eq",
         "stateless_bfs_dist_eq",
@@ -70,7 +73,7 @@ def finding_key(suite, ops, line, msg):
     if cls in CLASS_KEYS:
         return CLASS_KEYS[cls]
     op = ops[line].split() if line < len(ops) else []
-    site = ".".join(op[:3]) if op and op[0] in ("adj", "adj1", "reach", "reach1", "bfs", "bfs1", "norm", "nodes", "tsbfs", "tsdfs", "tssl", "dims", "numedges") else (op[0] if op else "?")
+    site = ".".join(op[:3]) if op and op[0] in ("adj", "adj1", "reach", "reach1", "bfs", "bfs1", "norm", "nodes", "tsbfs", "tsdfs", "tssl", "dims", "numedges", "snap") else (op[0] if op else "?")
     return "C14:%s:%s" % (site, cls)
 
 
@@ -128,7 +131,7 @@ SPEC = {
     "theorems_by_module": THEOREMS,
     "gate_modules": ["Dawgs.Model.C14", "Dawgs.Spec.C14", "Dawgs.Proofs.C14", "Dawgs.Proofs.C14TS", "Dawgs.Proofs.C14Csr", "Dawgs.Proofs.C14Reach",
                      "Dawgs.Proofs.C14Bfs", "Dawgs.Proofs.C14Norm", "Dawgs.Proofs.C14Seg", "Dawgs.Proofs.C14Trav", "Dawgs.Proofs.C14TravInst", "Dawgs.Proofs.C14Edges", "Dawgs.Proofs.C14Dims",
-                     "Dawgs.Proofs.C14Glue", "Dawgs.Props.C14"],
+                     "Dawgs.Proofs.C14Glue", "Dawgs.Proofs.C14Heap", "Dawgs.Props.C14"],
     "suites": [{"name": "c14", "model_suite": ("c14t" if TOMBSTONE_FIX else "c14") if MODEL_MODE == "fixed" else "c14old", "monitor_suite": "c14mon",
                 "keep_prefix": 2, "shrink_budget": 60, "thorough_seeds": 1}],
     "nontrivial": nontrivial,
@@ -137,7 +140,7 @@ SPEC = {
     "rule": "cases = (a) every digraph with loops on <=3 (quick) / <=4 (thorough) labelled nodes and <=4 / <=5 edges, (b) every edge multiset "
             "(parallel edges) on <=2 / <=3 nodes, (c) every deleted-node x deleted-edge projection subset of every digraph on <=2 / <=3 nodes with "
             "<=2 / <=3 edges, (d) random multigraphs from splitmix64(VERIF_SEED) with sparse 64-bit ids, self loops, parallel/antiparallel edges, "
-            "isolated and re-added nodes, duplicate edge ids, nested projections, tombstones, segments, TSBFS/TSDFS, WriteZoneBFSTree+ReadEach; each "
+            "isolated and re-added nodes, duplicate edge ids, first-class projection handles (derived from the store or from any earlier handle, store grown afterwards), tombstones, segments, TSBFS/TSDFS, WriteZoneBFSTree+ReadEach; each "
             "case is built into the adjacency map, the CSR builder, the triple store and a projection and queried for node sets, adjacency x3 "
             "directions, Reach, BFSTree, Normalize. A case is non-trivial when it has >= 2 edges, at least one of {self loop, parallel pair, "
             "antiparallel pair, isolated node} and asks `both` of >= 2 containers; distinct = distinct op-line sequences (sha1)",
@@ -147,13 +150,14 @@ SPEC = {
         "branch.proj.deleted_nodes", "branch.proj.deleted_edges", "branch.proj.nested", "branch.ts.delete_edge",
         "branch.reach.start_on_cycle", "branch.reach.empty", "branch.bfs.distance_ge3", "branch.normalize.am", "branch.normalize.csr",
         "branch.seg.single_node", "branch.tsbfs.both", "branch.tsdfs.in", "branch.traversal.depth_exceeded",
-        "branch.traversal.unbounded_depth", "branch.zone.readeach", "branch.adj1.csr", "branch.toseg", "branch.tssl.both", "branch.tssl.in", "branch.numedges.proj", "branch.dims", "gen.shape.proj_deletes_non_node",
+        "branch.traversal.unbounded_depth", "branch.zone.readeach", "branch.adj1.csr", "branch.toseg", "branch.tssl.both", "branch.tssl.in", "branch.numedges.proj", "branch.dims", "gen.shape.proj_deletes_non_node", "branch.handles.reobserved", "branch.snap", "branch.proj.nested",
     ],
     "trusted_base": [
         "RoaringBitmap / cardinality.Bitmap64 native Add/Or/Contains/Each (modelled as ascending lists), Go maps, gammazero/deque, encoding/binary, compress/gzip",
         "unexported container methods reached through interface assertions (Normalize, DeleteEdge, triplestore.AddNode) — no hook needed",
     ],
     "assumptions": [
+        "projection handles: from the first `proj` of a case on, EVERY answer is followed by FNV-1a digests of the full canonical view (NumNodes, EachNode, NumEdges, EachEdge, per node x direction EachAdjacentNode set and EachAdjacentEdge ids) of every live handle and of the caller-owned bitmaps passed to Projection; impl, model (handles are immutable values) and spec monitor must agree on all of them; `snap H` gives the full text",
         "ids are < 2^64 (the Go code cannot represent others); the Lean theorems hold for all naturals",
         "EachAdjacentNode multiplicity is not part of the property: answers are compared as sets by the monitor and as exact callback sequences by the model tie",
         "TSDFS/TSBFS/TSStatelessBFS theorems need `Terminates` (maxDepth > 0, or a rank function certifying the filtered graph acyclic); an admitted cycle with maxDepth <= 0 is the documented non-termination of the real loops and is never generated",
